@@ -1246,6 +1246,37 @@ func c02Muts() []c02Mut {
 			}
 			return false
 		}},
+		{"ParentHash:outside-guard-window+Txs:replay-consistent", func(s *c02State, m, _ *types.Block) bool {
+			// the claimed height stays (above the stable block), the parent named is a block the store knows but the tx guard no longer holds (older than its window) and the body is ONE transaction the guard still traces, with a consistent tx root: every check
+			// before verifyHeight passes. Whatever order the checks run in, the answer must be a rejection, never a panic of the
+			// guard's fork walk (it has no block to start from).
+			if m.Height() < 3 {
+				return false
+			}
+			// a parent the store knows and the tx guard does NOT hold any more (older than its window): asked of the real guard
+			cached := map[common.Hash]bool{}
+			s.n.BC.TxGuard().VerifDump(func(h common.Hash) int { cached[h] = true; return 0 }, func(common.Hash) int { return 0 })
+			var g *types.Block
+			for h := uint32(0); h+2 < m.Height() && g == nil; h++ {
+				if b, err := s.n.DB.GetBlockByHeight(h); err == nil && !cached[b.Hash()] {
+					g = b
+				}
+			}
+			if g == nil {
+				s.c.Count("mutant-void:no-parent-outside-the-guard-window-yet")
+				return false
+			}
+			for i := len(s.chainTxs) - 1; i >= 0 && i >= len(s.chainTxs)-40; i-- {
+				tx := s.chainTxs[i]
+				if tx.Expiration() >= uint64(m.Time()) && tx.Expiration() <= uint64(m.Time())+1800 {
+					m.Header.ParentHash = g.Hash()
+					m.Txs = types.Transactions{tx}
+					m.Header.TxRoot = m.Txs.MerkleRootSha()
+					return true
+				}
+			}
+			return false
+		}},
 		{"Txs:gas-used-field", func(s *c02State, m, _ *types.Block) bool {
 			if len(m.Txs) == 0 {
 				return false
@@ -1691,6 +1722,7 @@ func c02Campaign(c *Ctx) {
 			if !s.sign(m, variant, honestKey) {
 				variant = "keep"
 			}
+			c.Count("mutant:" + label)
 			label += " signer=" + variant
 			c.Count("signer:" + variant)
 			s.runCase(m, label, false, probe)
